@@ -48,6 +48,8 @@ func c06run(ctx *vc.Ctx) {
 	}
 	c06explore(ctx, "user-events/2callers/stmt", false, 2, b, true)
 	c06explore(ctx, "queries/2callers/stmt", true, 2, b, true)
+	c06exploreIn(ctx, "user-events/2callers/after-leave", false, 2, b-1, true, true)
+	c06exploreIn(ctx, "queries/2callers/after-leave", true, 2, b-1, true, true)
 	if ctx.Thorough() {
 		c06explore(ctx, "user-events/2callers/sync", false, 2, 4, false)
 		c06explore(ctx, "queries/2callers/sync", true, 2, 4, false)
@@ -57,6 +59,12 @@ func c06run(ctx *vc.Ctx) {
 }
 
 func c06explore(ctx *vc.Ctx, name string, queries bool, callers, bound int, steps bool) {
+	c06exploreIn(ctx, name, queries, callers, bound, steps, false)
+}
+
+// left: the calls are made on a node whose Leave has completed (it lingers as SerfLeft; UserEvent and Query
+// are still accepted there and their messages still go out, so their times must still be distinct).
+func c06exploreIn(ctx *vc.Ctx, name string, queries bool, callers, bound int, steps bool, left bool) {
 	var calls []*c06call
 	var foreign []*c06foreign
 	var clock int
@@ -82,6 +90,13 @@ func c06explore(ctx *vc.Ctx, name string, queries bool, callers, bound int, step
 		}
 		foreign = append(foreign, &c06foreign{ltime: 2, end: 0})
 		vsched.Quiesce()
+		if left {
+			vsched.SetHorizon(int64(10 * time.Second))
+			if err := n.S.Leave(); err != nil {
+				panic(err)
+			}
+			vsched.Quiesce()
+		}
 		n.Outbox()
 		vsched.Branching(true)
 		var hs []vsched.Handle
